@@ -258,7 +258,9 @@ def inline_once(rec, fns, vocab, depth_of, stats):
 # ---------------------------------------------------------------- desugaring of a few core combinators
 BOOL = {"k": "bool"}
 ITER_NEXT_OF = {"core::slice::Iter": "<core::slice::Iter<'a, T> as core::iter::Iterator>::next",
-                "core::slice::IterMut": "<core::slice::IterMut<'a, T> as core::iter::Iterator>::next"}
+                "core::slice::IterMut": "<core::slice::IterMut<'a, T> as core::iter::Iterator>::next",
+                "core::str::Bytes": "<core::str::Bytes as core::iter::Iterator>::next",
+                "core::str::Chars": "<core::str::Chars as core::iter::Iterator>::next"}
 CONTAINS = {"core::ops::RangeInclusive::<Idx>::contains": "Le", "core::ops::Range::<Idx>::contains": "Lt"}
 TRY_BRANCH = "<core::result::Result<T, E> as core::ops::Try>::branch"
 FROM_RESIDUAL = "<core::result::Result<T, F> as core::ops::FromResidual<core::result::Result<core::convert::Infallible, E>>>::from_residual"
@@ -291,6 +293,36 @@ def _variant_ctor(prog, fty):
         if v.get("name") == vname and len(v.get("fields", [])) == 1:
             return apath, i, vname, fty.get("args") or []
     return None
+
+
+NEXT_RESOLVE = {"core::str::Chars": "<core::str::Chars as core::iter::Iterator>::next",
+                "core::str::Bytes": "<core::str::Bytes as core::iter::Iterator>::next",
+                "core::slice::Iter": "<core::slice::Iter<'a, T> as core::iter::Iterator>::next",
+                "core::slice::IterMut": "<core::slice::IterMut<'a, T> as core::iter::Iterator>::next",
+                "core::ops::Range": "core::iter::range::<impl core::iter::Iterator for core::ops::Range<A>>::next",
+                "core::ops::RangeInclusive": "core::iter::range::<impl core::iter::Iterator for core::ops::RangeInclusive<A>>::next"}
+
+
+def reresolve(rec, stats):
+    """After a generic helper was inlined with its type parameters substituted, trait calls on the now concrete iterator type get the path rustc
+    would have resolved them to (`Iterator::next` on `Chars`), and `into_iter` of an iterator is the identity."""
+    changed = False
+    for blk in rec["blocks"]:
+        t = blk["term"]
+        if t["k"] != "call" or t.get("resolved"):
+            continue
+        ca = t.get("cargs") or []
+        if t.get("callee") == "core::iter::Iterator::next" and ca and ca[0].get("k") == "adt" and ca[0].get("path") in NEXT_RESOLVE:
+            t["resolved"] = NEXT_RESOLVE[ca[0]["path"]]
+            t["rargs"] = ca[0].get("args", [])
+            changed = True
+        elif t.get("callee") == "core::iter::IntoIterator::into_iter" and ca and ca[0].get("k") == "adt" and ca[0].get("path") in NEXT_RESOLVE:
+            t["resolved"] = "<I as core::iter::IntoIterator>::into_iter"
+            t["rargs"] = [ca[0]]
+            changed = True
+    if changed:
+        stats.setdefault(rec["path"], []).append("reresolve")
+    return changed
 
 
 def _closure_arg_ty(prog, rec, f_op):
@@ -831,6 +863,70 @@ def desugar(rec, prog, stats):
             stats.setdefault(rec["path"], []).append("desugar:" + c.rsplit("::", 1)[1])
             changed = True
             continue
+        mf_ = re.fullmatch(r"core::convert::num::<impl core::convert::From<(u8|u16|u32|i8|i16|i32)> for (f32|f64)>::from", c or "")
+        if mf_ and len(t["args"]) == 1 and not t["dest"]["proj"]:
+            # f32::from(i16) etc. (lossless): the cast `x as f32`
+            blk["stmts"] = list(blk["stmts"]) + [{"k": "assign", "place": copy.deepcopy(t["dest"]),
+                                                  "rv": {"k": "cast", "kind": "IntToFloat", "op": copy.deepcopy(t["args"][0]), "ty": rec["locals"][t["dest"]["local"]]}, "line": t.get("line")}]
+            blk["term"] = {"k": "goto", "target": t["target"]}
+            stats.setdefault(rec["path"], []).append("desugar:From-int-to-float")
+            changed = True
+            continue
+        mt_ = re.fullmatch(r"core::convert::num::(?:ptr_try_from_impls::)?<impl core::convert::TryFrom<(u16|u32|u64|usize)> for (u8|u16|u32)>::try_from", c or "")
+        if mt_ and len(t["args"]) == 1 and not t["dest"]["proj"]:
+            # uN::try_from(x) for an unsigned narrowing  ->  if x <= uN::MAX { Ok(x as uN) } else { Err(TryFromIntError) }
+            dty = rec["locals"][t["dest"]["local"]]
+            if dty.get("k") == "adt" and len(dty.get("args") or []) == 2:
+                bits = {"u8": 8, "u16": 16, "u32": 32}[mt_.group(2)]
+                srcty = {"k": "uint", "bits": 64 if mt_.group(1) in ("u64", "usize") else int(mt_.group(1)[1:]), "name": mt_.group(1)}
+                line = t.get("line")
+                n = len(rec["locals"])
+                rec["locals"].extend([BOOL, dty["args"][0], dty["args"][1]])
+                nb = len(rec["blocks"])
+                blk["stmts"] = list(blk["stmts"]) + [{"k": "assign", "place": {"local": n, "proj": []},
+                                                      "rv": {"k": "binop", "op": "Le", "a": copy.deepcopy(t["args"][0]),
+                                                             "b": {"k": "const", "ty": srcty, "bits": (1 << bits) - 1, "val": (1 << bits) - 1, "size": srcty["bits"] // 8}}, "line": line}]
+                blk["term"] = {"k": "switch", "discr": {"k": "move", "place": {"local": n, "proj": []}}, "dty": BOOL, "arms": [[0, nb + 1]], "otherwise": nb, "line": line}
+                rec["blocks"].append({"stmts": [
+                    {"k": "assign", "place": {"local": n + 1, "proj": []}, "rv": {"k": "cast", "kind": "IntToInt", "op": copy.deepcopy(t["args"][0]), "ty": dty["args"][0]}, "line": line},
+                    {"k": "assign", "place": copy.deepcopy(t["dest"]),
+                     "rv": {"k": "aggregate", "agg": "adt", "path": "core::result::Result", "variant": 0, "vname": "Ok", "args": dty["args"], "is_enum": True,
+                            "ops": [{"k": "move", "place": {"local": n + 1, "proj": []}}]}, "line": line}], "term": {"k": "goto", "target": t["target"]}})
+                rec["blocks"].append({"stmts": [
+                    {"k": "assign", "place": {"local": n + 2, "proj": []}, "rv": {"k": "aggregate", "agg": "adt", "path": "core::num::TryFromIntError", "variant": 0, "vname": "TryFromIntError",
+                                                                                 "args": [], "is_enum": False, "ops": [{"k": "const", "ty": {"k": "tuple", "elems": []}}]}, "line": line},
+                    {"k": "assign", "place": copy.deepcopy(t["dest"]),
+                     "rv": {"k": "aggregate", "agg": "adt", "path": "core::result::Result", "variant": 1, "vname": "Err", "args": dty["args"], "is_enum": True,
+                            "ops": [{"k": "move", "place": {"local": n + 2, "proj": []}}]}, "line": line}], "term": {"k": "goto", "target": t["target"]}})
+                stats.setdefault(rec["path"], []).append("desugar:try_from")
+                changed = True
+                continue
+        ms_ = re.fullmatch(r"core::num::<impl (u8|u16|u32|u64|usize)>::checked_shl", c or "")
+        if ms_ and len(t["args"]) == 2 and not t["dest"]["proj"]:
+            # x.checked_shl(k)  ->  if k < BITS { Some(x << k) } else { None }
+            dty = rec["locals"][t["dest"]["local"]]
+            if dty.get("k") == "adt" and dty.get("args"):
+                bits = 64 if ms_.group(1) in ("u64", "usize") else int(ms_.group(1)[1:])
+                u32 = {"k": "uint", "bits": 32, "name": "u32"}
+                line = t.get("line")
+                n = len(rec["locals"])
+                rec["locals"].extend([BOOL, dty["args"][0]])
+                nb = len(rec["blocks"])
+                blk["stmts"] = list(blk["stmts"]) + [{"k": "assign", "place": {"local": n, "proj": []},
+                                                      "rv": {"k": "binop", "op": "Lt", "a": copy.deepcopy(t["args"][1]), "b": {"k": "const", "ty": u32, "bits": bits, "val": bits, "size": 4}}, "line": line}]
+                blk["term"] = {"k": "switch", "discr": {"k": "move", "place": {"local": n, "proj": []}}, "dty": BOOL, "arms": [[0, nb + 1]], "otherwise": nb, "line": line}
+                rec["blocks"].append({"stmts": [
+                    {"k": "assign", "place": {"local": n + 1, "proj": []}, "rv": {"k": "binop", "op": "Shl", "a": copy.deepcopy(t["args"][0]), "b": copy.deepcopy(t["args"][1])}, "line": line},
+                    {"k": "assign", "place": copy.deepcopy(t["dest"]),
+                     "rv": {"k": "aggregate", "agg": "adt", "path": "core::option::Option", "variant": 1, "vname": "Some", "args": dty["args"], "is_enum": True,
+                            "ops": [{"k": "move", "place": {"local": n + 1, "proj": []}}]}, "line": line}], "term": {"k": "goto", "target": t["target"]}})
+                rec["blocks"].append({"stmts": [
+                    {"k": "assign", "place": copy.deepcopy(t["dest"]),
+                     "rv": {"k": "aggregate", "agg": "adt", "path": "core::option::Option", "variant": 0, "vname": "None", "args": dty["args"], "is_enum": True, "ops": []}, "line": line}],
+                    "term": {"k": "goto", "target": t["target"]}})
+                stats.setdefault(rec["path"], []).append("desugar:checked_shl")
+                changed = True
+                continue
         m_ = re.fullmatch(r"core::convert::num::<impl core::convert::From<(u8|u16|u32|i8|i16|i32|bool|char)> for (u16|u32|u64|u128|usize|i16|i32|i64|i128|isize)>::from", c or "")
         if m_ and len(t["args"]) == 1 and not t["dest"]["proj"]:
             # uN::from(x) for a lossless widening: the cast `x as uN`
@@ -998,6 +1094,66 @@ def desugar(rec, prog, stats):
             stats.setdefault(rec["path"], []).append("desugar:map_or")
             changed = True
             continue
+        if c == "core::iter::Iterator::try_fold" and len(t["args"]) == 3 and not t["dest"]["proj"] and len(t.get("cargs") or []) == 4 \
+                and t["cargs"][0].get("k") == "adt" and t["cargs"][0].get("path") in NEXT_RESOLVE \
+                and t["cargs"][3].get("k") == "adt" and t["cargs"][3].get("path") == "core::result::Result" and t["cargs"][3]["args"][0] == t["cargs"][1] \
+                and all(a_["k"] in ("move", "copy") and not a_["place"]["proj"] for a_ in t["args"]) \
+                and rec["locals"][t["args"][2]["place"]["local"]].get("k") == "closure" and rec["locals"][t["args"][2]["place"]["local"]].get("path") in prog.fns:
+            # it.try_fold(init, |acc, x| body)  ->  let mut acc = init; loop { match it.next() { None => break Ok(acc), Some(x) => acc = body(acc, x)? } }
+            ity, accty, fty, rty = t["cargs"]
+            itl, initl, fl = (a_["place"]["local"] for a_ in t["args"])
+            cl = prog.fns[fty["path"]].rec
+            if len(cl["locals"]) >= 4 and cl.get("argc") == 3:
+                item_ty = cl["locals"][3]
+                by_ref = rec["locals"][itl].get("k") == "ref"
+                it_place = {"local": itl, "proj": [{"k": "deref"}]} if by_ref else {"local": itl, "proj": []}
+                if by_ref:
+                    dfn = _single_def(rec, itl)
+                    if dfn is not None and dfn[0] == "stmt" and dfn[3]["rv"]["k"] == "ref" and not dfn[3]["rv"]["place"]["proj"] and _uses_of(rec, itl) == 2:
+                        it_place = {"local": dfn[3]["rv"]["place"]["local"], "proj": []}
+                        rec["blocks"][dfn[1]]["stmts"] = [x_ for x_ in rec["blocks"][dfn[1]]["stmts"] if x_ is not dfn[3]]
+                line = t.get("line")
+                isz = {"k": "int", "bits": 64, "name": "isize"}
+                opt_ty = {"k": "adt", "path": "core::option::Option", "args": [item_ty], "s": "core::option::Option<Item>"}
+                n = len(rec["locals"])
+                rec["locals"].extend([accty, {"k": "ref", "mut": True, "to": ity}, opt_ty, isz, item_ty, {"k": "tuple", "elems": [accty, item_ty]},
+                                      {"k": "ref", "mut": True, "to": fty}, rty, isz])
+                acc, r, nx, d, item, tup, cr, rr, d2 = range(n, n + 9)
+                nb = len(rec["blocks"])
+                H, S, N, B, C, K, E, U = nb, nb + 1, nb + 2, nb + 3, nb + 4, nb + 5, nb + 6, nb + 7
+                blk["stmts"] = list(blk["stmts"]) + [{"k": "assign", "place": {"local": acc, "proj": []}, "rv": {"k": "use", "op": {"k": "move", "place": {"local": initl, "proj": []}}}, "line": line}]
+                blk["term"] = {"k": "goto", "target": H}
+                rec["blocks"].append({"stmts": [{"k": "assign", "place": {"local": r, "proj": []}, "rv": {"k": "ref", "mut": True, "place": it_place}, "line": line}],
+                                      "term": {"k": "call", "callee": "core::iter::Iterator::next", "resolved": NEXT_RESOLVE[ity["path"]], "cargs": [ity], "rargs": ity.get("args", []),
+                                               "args": [{"k": "move", "place": {"local": r, "proj": []}}], "dest": {"local": nx, "proj": []}, "target": S, "line": line}})
+                rec["blocks"].append({"stmts": [{"k": "assign", "place": {"local": d, "proj": []}, "rv": {"k": "discr", "place": {"local": nx, "proj": []}}, "line": line}],
+                                      "term": {"k": "switch", "discr": {"k": "move", "place": {"local": d, "proj": []}}, "dty": isz, "arms": [[0, N], [1, B]], "otherwise": U, "line": line}})
+                rec["blocks"].append({"stmts": [{"k": "assign", "place": copy.deepcopy(t["dest"]),
+                                                 "rv": {"k": "aggregate", "agg": "adt", "path": "core::result::Result", "variant": 0, "vname": "Ok", "args": rty["args"], "is_enum": True,
+                                                        "ops": [{"k": "move", "place": {"local": acc, "proj": []}}]}, "line": line}], "term": {"k": "goto", "target": t["target"]}})
+                rec["blocks"].append({"stmts": [
+                    {"k": "assign", "place": {"local": item, "proj": []},
+                     "rv": {"k": "use", "op": {"k": "move", "place": {"local": nx, "proj": [{"k": "downcast", "variant": 1, "name": "Some"}, {"k": "field", "i": 0, "ty": item_ty}]}}}, "line": line},
+                    {"k": "assign", "place": {"local": tup, "proj": []}, "rv": {"k": "aggregate", "agg": "tuple", "ops": [{"k": "move", "place": {"local": acc, "proj": []}},
+                                                                                                                    {"k": "move", "place": {"local": item, "proj": []}}]}, "line": line},
+                    {"k": "assign", "place": {"local": cr, "proj": []}, "rv": {"k": "ref", "mut": True, "place": {"local": fl, "proj": []}}, "line": line}],
+                    "term": {"k": "call", "callee": "core::ops::FnMut::call_mut", "resolved": None, "cargs": [fty, {"k": "tuple", "elems": [accty, item_ty]}], "rargs": [],
+                             "args": [{"k": "move", "place": {"local": cr, "proj": []}}, {"k": "move", "place": {"local": tup, "proj": []}}], "dest": {"local": rr, "proj": []},
+                             "target": C, "line": line}})
+                rec["blocks"].append({"stmts": [{"k": "assign", "place": {"local": d2, "proj": []}, "rv": {"k": "discr", "place": {"local": rr, "proj": []}}, "line": line}],
+                                      "term": {"k": "switch", "discr": {"k": "move", "place": {"local": d2, "proj": []}}, "dty": isz, "arms": [[0, K], [1, E]], "otherwise": U, "line": line}})
+                rec["blocks"].append({"stmts": [{"k": "assign", "place": {"local": acc, "proj": []},
+                                                 "rv": {"k": "use", "op": {"k": "move", "place": {"local": rr, "proj": [{"k": "downcast", "variant": 0, "name": "Ok"}, {"k": "field", "i": 0, "ty": accty}]}}},
+                                                 "line": line}], "term": {"k": "goto", "target": H}})
+                rec["blocks"].append({"stmts": [{"k": "assign", "place": copy.deepcopy(t["dest"]),
+                                                 "rv": {"k": "aggregate", "agg": "adt", "path": "core::result::Result", "variant": 1, "vname": "Err", "args": rty["args"], "is_enum": True,
+                                                        "ops": [{"k": "move", "place": {"local": rr, "proj": [{"k": "downcast", "variant": 1, "name": "Err"},
+                                                                                                          {"k": "field", "i": 0, "ty": rty["args"][1]}]}}]}, "line": line}],
+                                      "term": {"k": "goto", "target": t["target"]}})
+                rec["blocks"].append({"stmts": [], "term": {"k": "unreachable"}})
+                stats.setdefault(rec["path"], []).append("desugar:try_fold")
+                changed = True
+                continue
         if c in ("core::iter::Iterator::try_for_each", "core::iter::Iterator::for_each") and len(t["args"]) == 2 and not t["dest"]["proj"] \
                 and t.get("cargs") and ((t["cargs"][0].get("k") == "adt" and t["cargs"][0].get("path") in ITER_NEXT_OF) or
                                         (t["cargs"][0].get("k") in ("other", "param") and _closure_arg_ty(prog, rec, t["args"][1]) is not None)) \
@@ -1573,6 +1729,7 @@ def apply(prog):
                 break
             touched.add(p)
     for p in list(touched):
+        reresolve(recs[p], stats)
         fold_try(recs[p], stats)
         for _ in range(6):
             if not thread_jumps(recs[p], stats):
